@@ -65,6 +65,23 @@ class PyEval(MiniEval):
     def attr(self, value: Any, name: str, node: ast.Attribute, env: dict) -> Any:
         if isinstance(value, Tok) and name in value.attrs:
             return value.attrs[name]
+        if isinstance(value, Tok) and "__classes__" in value.attrs:
+            # property / cached_property defined in one of the token's classes (MRO order)
+            for c in value.attrs["__classes__"]:
+                m = c.methods.get(name)
+                if m is not None and any(d in ("property", "cached_property", "functools.cached_property") for d in m.decorator_names()):
+                    if self.depth >= self.max_depth:
+                        raise Unsupported("property depth")
+                    self.depth += 1
+                    try:
+                        pname = m.node.args.args[0].arg
+                        hooks = {k: v for k, v in env.items() if callable(v)}
+                        out = self.run(m.node.body, {**hooks, pname: value})
+                    finally:
+                        self.depth -= 1
+                    if out[0] == "raise":
+                        raise Raised(f"{name}: {out[1]}", str(out[1]))
+                    return out[1] if out[0] == "return" else None
         if isinstance(value, str) and name in ("lower", "upper"):
             return ("bound", getattr(value, name))
         # class constant:  NumericType.INT_WIDTH
@@ -80,7 +97,7 @@ class PyEval(MiniEval):
 
     # ---- operators
     def truth(self, v: Any) -> bool:
-        if isinstance(v, (bool, int, float, str, tuple, list, dict)) or v is None:
+        if isinstance(v, (bool, int, float, str, tuple, list, dict, set, frozenset)) or v is None:
             return bool(v)
         if isinstance(v, Tok):
             return True
@@ -191,7 +208,7 @@ class PyEval(MiniEval):
                     except IndexError:
                         raise Raised("index out of range", "IndexError") from None
             raise Unsupported(f"subscript of {v!r}")
-        if isinstance(e, (ast.ListComp, ast.GeneratorExp)) and len(e.generators) == 1 and not e.generators[0].ifs:
+        if isinstance(e, (ast.ListComp, ast.GeneratorExp)) and len(e.generators) == 1:
             g = e.generators[0]
             it = self.ev(g.iter, env)
             if not isinstance(it, (list, tuple)):
@@ -200,7 +217,8 @@ class PyEval(MiniEval):
             for item in it:
                 env2 = dict(env)
                 self.assign(g.target, item, env2)
-                out.append(self.ev(e.elt, env2))
+                if all(self.truth(self.ev(c, env2)) for c in g.ifs):
+                    out.append(self.ev(e.elt, env2))
             return out
         return super().ev(e, env)
 
